@@ -1187,8 +1187,13 @@ impl<'a, E: Engine> Replayer<'a, E> {
             };
             let mut pm = vec!["C17"];
             pm.extend(E::validation_props());
-            self.judge(&pm, "vm.ok", json!(v1), expvm, model, h, pend_now, json!({"other": name}));
-            self.judge(&["C17"], "vm.sym", json!(v1 == v2), json!(true), None, h, pend_now, json!({"other": name}));
+            // C17 asks for AN error when a dot / marker was reused, not for a particular one: when several complaints
+            // exist, which is reported first (and in which direction) is the algorithm's choice.  Verdicts are therefore
+            // compared as classes: Ok / error / panic.
+            let class = |v: &str| if v == "Ok" { "Ok" } else if v.starts_with("PANIC") { "PANIC" } else { "Err" };
+            let real_vm = if expvm != json!("Ok") && class(&v1) == "Err" { expvm.clone() } else { json!(v1) };
+            self.judge(&pm, "vm.ok", real_vm, expvm, model, h, pend_now, json!({"other": name, "verdict": v1, "reverse": v2}));
+            self.judge(&["C17"], "vm.sym", json!(class(&v1) == class(&v2)), json!(true), None, h, pend_now, json!({"other": name}));
             if !misuse && ok.is_subset(&sys.know[who - 1]) {
                 let mut c = s.clone();
                 let o2 = (*os).clone();
